@@ -106,6 +106,7 @@ structure St where
   pool : Pool := []
   peers : List (String × Cert) := []
   flows : List Flow := []          -- spec: tracked tuples
+  sure : List Flow := []           -- spec: tuples the implementation must still be tracking (lower bounds)
   epoch : Nat := 0                 -- spec: effective reloads so far
   staged : List (String × Rule) := []   -- rules of the next reload (line text, parsed)
   lastLoad : Option LoadCfg := none     -- the firewall section of the config as last loaded
@@ -177,7 +178,7 @@ def stepSetup (s : St) (args : List String) (impl : String) : Option (St × Out)
                  tag := "match:" ++ boolStr want })
     | _, _, _ => some (s, badOp)
   | ["clear"] =>
-    some ({ s with sys := { s.sys with ct := { s.sys.ct with conns := [] } }, flows := [], wrapLost := [] },
+    some ({ s with sys := { s.sys with ct := { s.sys.ct with conns := [] } }, flows := [], sure := [], wrapLost := [] },
           { model := "ok", tag := "triv:clear" })
   | ["sleep", d] =>
     match natArg d with
